@@ -1,0 +1,27 @@
+//go:build verif
+
+// Package verifhook provides schedule-control points for the verification harness.
+package verifhook
+
+import "sync/atomic"
+
+// Handler is called at every At point; it may block the calling goroutine.
+type Handler func(point string, keys []string)
+
+var handler atomic.Pointer[Handler]
+
+// Set installs (or with nil removes) the handler.
+func Set(h Handler) {
+	if h == nil {
+		handler.Store(nil)
+		return
+	}
+	handler.Store(&h)
+}
+
+// At marks a point at which the verification harness may park the calling goroutine.
+func At(point string, keys ...string) {
+	if h := handler.Load(); h != nil {
+		(*h)(point, keys)
+	}
+}
